@@ -256,7 +256,7 @@ func c19Alphabet() []string {
 	for _, l := range c08Alphabet() {
 		a = append(a, l)
 	}
-	return append(a, "\r\n", "\"a\nb\"", "'q\\'q'", "日本", "\\{{", "\\@if", "{{-- c\nc --}}", "\xef\xbb\xbf", "\f", "\xc2\xa0")
+	return append(a, "\r\n", "\"a\nb\"", "'q\\'q'", "日本", "\\{{", "\\@if", "{{-- c\nc --}}", "\xef\xbb\xbf", "\f", "\xc2\xa0", "99999999999999999999")
 }
 
 func TestC19_LexemeSequences(t *testing.T) {
@@ -337,9 +337,11 @@ func TestC19_Templates(t *testing.T) {
 
 func TestC19_Soup(t *testing.T) {
 	c := harness.New(t, "C19", "soup",
-		"random soups of 0..30 lexemes (no NUL) with random non-NUL bytes mixed in; same oracle. Distinct by hash.")
+		"random soups of 0..30 lexemes (no NUL; the alphabet extended by integers beyond int64, numbers with several dots or leading zeros, 40-digit numbers, 70-letter names, a 300-byte string) with random non-NUL bytes mixed in; same oracle. Distinct by hash.")
 	defer c.Finish()
-	alpha := c19Alphabet()
+	// (plus lexemes the literal parsers refuse or read specially: integers beyond int64, several dots, leading zeros, long identifiers and numbers)
+	alpha := append(c19Alphabet(), "99999999999999999999", "9223372036854775808", "9223372036854775807", "18446744073709551616", "1.2.3", "007", "0.0.0", "1.", ".5", "12345678901234567890.5",
+		strings.Repeat("9", 40), strings.Repeat("n", 70), "1e5", "0x1F", "1_000", "'"+strings.Repeat("s", 300)+"'")
 	runRapid(t, c, 30000, 360000, func(rt *rapid.T) {
 		n := rapid.IntRange(0, 30).Draw(rt, "n")
 		var b strings.Builder
